@@ -398,6 +398,12 @@ func (p *Prepared) prepareOp(op *Op) (*prepOp, bool) {
 			}
 		}
 	case "scribble", "recheck", "mutate", "nop", "reslice", "marshalTarget":
+	case "fill":
+		// the caller puts a value of its own making into the target it is about to
+		// re-use: times in other zones, empty non-nil slices, spare capacity...
+		po.val = sc.genValue(op)
+		rr := engine.PRNG{S: engine.Mix(op.VSeed, 0xF111)}
+		world.Reshape(po.val, rr.Intn)
 	default:
 		panic(HarnessError{"unknown op kind " + op.Kind})
 	}
@@ -648,6 +654,12 @@ func (t *taskState) sharedOp(i int, po *prepOp) {
 		t.recheck(i, po, "after later operations")
 	case "marshalTarget":
 		t.marshalTargetOp(i, po)
+	case "fill":
+		tgt := reflect.New(po.ti.T)
+		tgt.Elem().Set(po.val)
+		t.targets[po.op.Target] = tgt
+		delete(t.twins, po.op.Target)
+		t.probe("fault:target_filled_by_the_caller")
 	case "reslice":
 		if tgt, ok := t.targets[po.op.Target]; ok {
 			r := engine.PRNG{S: uint64(po.op.Arg) + 7}
